@@ -118,7 +118,9 @@ impl Engine for ListEng {
         let it: Vec<u64> = s.iter().map(|x| *x as u64).collect();
         let ents: Vec<u64> = s.iter_entries().map(|(_, v)| *v as u64).collect();
         let ok_entries = s.iter_entries().enumerate().all(|(ix, (id, v))| s.position_entry(id) == Some(ix) && s.get(id) == Some(v));
-        let consistent = it == read && ents == read && ok_entries && s.len() == n && s.is_empty() == (n == 0)
+        // out-of-range requests: delete_index(len) builds no op, position(len) is None, unknown ids are absent
+        let oob = s.delete_index(n, 1).is_none() && s.position(n).is_none();
+        let consistent = oob && it == read && ents == read && ok_entries && s.len() == n && s.is_empty() == (n == 0)
             && s.first().map(|x| *x as u64) == read.first().copied() && s.last().map(|x| *x as u64) == read.last().copied();
         seq_reads(read, json!({"position": pos, "consistent": consistent}))
     }
@@ -264,5 +266,46 @@ impl Engine for GListEng {
     }
     fn is_ctx_path(_p: &str) -> bool {
         false
+    }
+}
+
+impl crate::drive::Driveable for ListEng {
+    fn random_cmd(s: &Self::S, _r: usize, rng: &mut rand::rngs::StdRng, _d: &Dims) -> Option<Value> {
+        use rand::Rng;
+        // the acting actor is not known here: the value is made unique from the list's own clock total
+        // (10 * ops seen + a random digit would collide); the driver passes the actor through gen(), so the
+        // value only has to be unique per history: use the total number of dots the replica has seen + a salt
+        let t = to_tree(s);
+        let seen: u64 = t.field("clock").map().iter().map(|(_, c)| c.u()).sum();
+        let v = (seen * 7 + rng.gen_range(0..7u64)) % 250 + 1;
+        let n = s.len();
+        let roll: f64 = rng.gen();
+        Some(if roll < 0.55 {
+            json!({"c": "ins", "i": rng.gen_range(0..=n + 1), "v": v})
+        } else if roll < 0.7 {
+            json!({"c": "app", "i": 0, "v": v})
+        } else if n > 0 {
+            json!({"c": "del", "i": rng.gen_range(0..n), "v": 0})
+        } else {
+            json!({"c": "app", "i": 0, "v": v})
+        })
+    }
+}
+
+impl crate::drive::Driveable for GListEng {
+    fn random_cmd(s: &Self::S, _r: usize, rng: &mut rand::rngs::StdRng, _d: &Dims) -> Option<Value> {
+        use rand::Rng;
+        let n = s.len();
+        // elements are made unique per insert: 40 * replica + the replica's own insert number
+        let own = s.read::<Vec<&u8>>().into_iter().filter(|x| (**x as usize) / 40 == _r).count();
+        let v = (40 * _r + own + 1) as u8;
+        let roll: f64 = rng.gen();
+        Some(if roll < 0.5 || n == 0 {
+            json!({"c": "ins", "i": rng.gen_range(0..=n), "v": v})
+        } else if roll < 0.75 {
+            json!({"c": "after", "i": rng.gen_range(1..=n), "v": v})
+        } else {
+            json!({"c": "before", "i": rng.gen_range(1..=n), "v": v})
+        })
     }
 }
